@@ -1,0 +1,207 @@
+//go:build verif
+
+package verifhook
+
+import (
+	"runtime"
+	"sync"
+	"sync/atomic"
+)
+
+// Override tables. An entry of 0 means "no override".
+var (
+	workerOverride   [NumSites]atomic.Int64 // forced worker count (>0)
+	parallelOverride [NumSites]atomic.Int64 // 0 none, 1 force false, 2 force true
+	allWorkers       atomic.Int64           // forced count for every site without its own override
+)
+
+// SetWorkers forces the worker count read at one site (n <= 0 removes the override).
+func SetWorkers(site, n int) {
+	if n < 0 {
+		n = 0
+	}
+	workerOverride[site].Store(int64(n))
+}
+
+// SetAllWorkers forces the worker count of every site that has no override of its own.
+func SetAllWorkers(n int) {
+	if n < 0 {
+		n = 0
+	}
+	allWorkers.Store(int64(n))
+}
+
+// SetParallel forces the algorithm choice at one site: mode 0 none, 1 false, 2 true.
+func SetParallel(site, mode int) { parallelOverride[site].Store(int64(mode)) }
+
+// ResetOverrides removes every override.
+func ResetOverrides() {
+	for i := range workerOverride {
+		workerOverride[i].Store(0)
+		parallelOverride[i].Store(0)
+	}
+	allWorkers.Store(0)
+}
+
+// Workers returns the (possibly overridden) worker count of a site and counts the visit.
+func Workers(site, n int) int {
+	siteHits[site].Add(1)
+	if v := workerOverride[site].Load(); v > 0 {
+		return int(v)
+	}
+	if v := allWorkers.Load(); v > 0 {
+		return int(v)
+	}
+	return n
+}
+
+// Parallel returns the (possibly overridden) algorithm choice of a site. When a
+// worker count is forced for the site (or for all sites) the choice is recomputed as the code
+// would with GOMAXPROCS = that count (b is of the form GOMAXPROCS > 1 && rest;
+// forcing 1 gives false; forcing n > 1 keeps rest, which the caller cannot
+// separate, so n > 1 is only meaningful when the process runs with GOMAXPROCS > 1).
+func Parallel(site int, b bool) bool {
+	siteHits[site].Add(1)
+	switch parallelOverride[site].Load() {
+	case 1:
+		return false
+	case 2:
+		return true
+	}
+	if v := workerOverride[site].Load(); v > 0 {
+		if v == 1 {
+			return false
+		}
+		return b
+	}
+	if allWorkers.Load() == 1 {
+		return false
+	}
+	return b
+}
+
+var siteHits [NumSites]atomic.Int64
+
+// SiteHits returns how often each site was reached since the last ResetHits.
+func SiteHits() [NumSites]int64 {
+	var r [NumSites]int64
+	for i := range siteHits {
+		r[i] = siteHits[i].Load()
+	}
+	return r
+}
+
+func ResetHits() {
+	for i := range siteHits {
+		siteHits[i].Store(0)
+	}
+}
+
+// RangeRec is one (site, start, end) range handed to a worker goroutine.
+type RangeRec struct{ Site, Start, End int }
+
+var (
+	rangeMu  sync.Mutex
+	rangeOn  atomic.Bool
+	rangeLog []RangeRec
+)
+
+// LogRanges switches range logging on/off and clears the log.
+func LogRanges(on bool) {
+	rangeMu.Lock()
+	rangeLog = rangeLog[:0]
+	rangeMu.Unlock()
+	rangeOn.Store(on)
+}
+
+// Ranges returns a copy of the logged ranges (in spawn order per site).
+func Ranges() []RangeRec {
+	rangeMu.Lock()
+	defer rangeMu.Unlock()
+	return append([]RangeRec(nil), rangeLog...)
+}
+
+// Range records the half-open range handed to one worker (called by the spawning goroutine).
+func Range(site, start, end int) {
+	if !rangeOn.Load() {
+		return
+	}
+	rangeMu.Lock()
+	if len(rangeLog) < 1<<20 {
+		rangeLog = append(rangeLog, RangeRec{site, start, end})
+	}
+	rangeMu.Unlock()
+}
+
+// Event is one traced Yield call.
+type Event struct {
+	G     int64 // goroutine id
+	Point int
+	Y, X  int
+}
+
+var (
+	yieldFn  atomic.Pointer[func(point, y, x int)]
+	traceOn  atomic.Bool
+	traceMu  sync.Mutex
+	traceLog []Event
+)
+
+// SetYield installs (or, with nil, removes) the perturbation callback run at every Yield.
+func SetYield(f func(point, y, x int)) {
+	if f == nil {
+		yieldFn.Store(nil)
+		return
+	}
+	yieldFn.Store(&f)
+}
+
+// Trace switches event tracing on/off and clears the trace.
+func Trace(on bool) {
+	traceMu.Lock()
+	traceLog = traceLog[:0]
+	traceMu.Unlock()
+	traceOn.Store(on)
+}
+
+// Events returns a copy of the recorded trace, in recording order.
+func Events() []Event {
+	traceMu.Lock()
+	defer traceMu.Unlock()
+	return append([]Event(nil), traceLog...)
+}
+
+// Yield records the event (when tracing) and then runs the perturbation callback.
+// The event is recorded when Yield is entered, i.e. before the operation that
+// follows the call site and after the one that precedes it.
+func Yield(point, y, x int) {
+	if traceOn.Load() {
+		g := goid()
+		traceMu.Lock()
+		if len(traceLog) < 1<<22 {
+			traceLog = append(traceLog, Event{g, point, y, x})
+		}
+		traceMu.Unlock()
+	}
+	if f := yieldFn.Load(); f != nil {
+		(*f)(point, y, x)
+	}
+}
+
+// Goid returns the id of the calling goroutine (parsed from runtime.Stack; verif builds only).
+func Goid() int64 { return goid() }
+
+func goid() int64 {
+	var buf [64]byte
+	n := runtime.Stack(buf[:], false)
+	// "goroutine 123 [running]:..."
+	var id int64
+	for i := len("goroutine "); i < n; i++ {
+		c := buf[i]
+		if c < '0' || c > '9' {
+			break
+		}
+		id = id*10 + int64(c-'0')
+	}
+	return id
+}
